@@ -2,7 +2,7 @@
     [assemble] is the hand-written model of Powertrain.__init__ over the link state produced by the relation declarations
     (Relations.v), compared with gearpy on declaration histories that re-route the chain, with and without duplicate names. *)
 From Coq Require Import ZArith String List Bool PrimFloat.
-From GP Require Import ArithDef FloatUtil UnitsCore PyUnits QOps Relations RelProofs.
+From GP Require Import ArithDef FloatUtil UnitsCore PyUnits QOps Relations RelProofs PowertrainObj.
 Import ListNotations.
 
 (** [drives_path s m ids]: ids is m followed by what m drives, and so on, ending at an element that drives nothing *)
@@ -20,13 +20,23 @@ Theorem C20_duplicate_name : forall (A : Arith) (s : @rstate A) m x ids, get s m
   l_drives (snd x) <> None -> drives_path s m ids -> length ids <= S (length s) -> ~ NoDup (map (name_of s) ids) -> assemble s m = Err NameError.
 Proof. exact (@assemble_duplicate_name). Qed.
 (** the self-locking flag: some worm gear of the chain whose mating was flagged self-locking (C10_worm_mating ties that flag to
-    f > cos(alpha) * tan(beta)).  The tuple and the flag are returned values: no later operation of the model has access to them;
-    that the Python attributes cannot be reassigned is checked on the implementation by the driver. *)
+    f > cos(alpha) * tan(beta)). *)
 Theorem C20_self_locking_flag : forall (A : Arith) (s : @rstate A) i,
   worm_locks s i = match nth_error s i with
                    | Some (d, l) => ekind_eqb (d_kind d) EWorm && match l_selflock l with Some b => b | None => false end
                    | None => false end.
 Proof. reflexivity. Qed.
 
+(** "cannot be changed afterwards": the powertrain object (PowertrainObj.v) under any later sequence of update_time / reset / relation
+    declarations on its elements / new elements shows the elements and the flag [assemble] returned at construction -- even when
+    assembling again from the link state reached would give something else (the example: a worm mating re-declared below its
+    self-locking threshold and the chain extended).  That the Python attributes cannot be reassigned is checked on the implementation. *)
+Theorem C20_frozen_afterwards : forall (A : Arith) (s : @rstate A) m p (ops : list (@ptop A)), construct s m = Ok p ->
+  exists ids lk, assemble s m = Ok (ids, lk) /\ p_elements (snd (pruns ops (s, p))) = ids /\ p_locking (snd (pruns ops (s, p))) = lk.
+Proof. exact (@constructed_then_frozen). Qed.
+Example C20_nonvacuous : ex_frozen_check = true.
+Proof. exact frozen_differs_from_reassembly. Qed.
+
+Print Assumptions C20_frozen_afterwards.
 Print Assumptions C20_assembled_is_the_chain.
 Print Assumptions C20_every_chain_is_assembled.
